@@ -364,6 +364,8 @@ def adp_cases(tier):
 
 def cases(tier, seed=0):
   cs = []
+  from checks import fpgrid
+  cs.append(Case("fp grid GULP", fpgrid.grid_case, target="GULP", nr=41))
   if tier == "quick":
     for nr in (2, 3, 5):
       for npots in (1, 2):
